@@ -447,7 +447,12 @@ func propC06(j *Job) {
 	runCases(j, cases, func(spec *xferSpec) func(m *Sim, x *Exec, r *xferResult) { return prFinal(spec, false) })
 	for _, mode := range modes {
 		for _, lim := range []uint32{0, 2} {
-			j.Explore(fmt.Sprintf("PRR/%s/rx%d", mode.Name, lim), prAfterPeerResetScenario(withBase(mode.A, 228, 0xFFFFFFFA, 4000), withBase(mode.B, 228, 50, 4000), lim), Budget{}, nil)
+			j.Explore(fmt.Sprintf("PRR/%s/rx%d", mode.Name, lim), prAfterPeerResetScenario(withBase(mode.A, 228, 0xFFFFFFFA, 4000), withBase(mode.B, 228, 50, 4000), lim, 0), Budget{}, nil)
+			if lim == 0 {
+				for _, ro := range []int{1, 2} {
+					j.Explore(fmt.Sprintf("PRR/%s/reopen%d", mode.Name, ro), prAfterPeerResetScenario(withBase(mode.A, 228, 0xFFFFFFFA, 4000), withBase(mode.B, 228, 50, 4000), lim, ro), Budget{}, nil)
+				}
+			}
 		}
 	}
 }
@@ -563,7 +568,7 @@ func propC07(j *Job) {
 	}
 	runCases(j, cases, func(spec *xferSpec) func(m *Sim, x *Exec, r *xferResult) { return prFinal(spec, true) })
 	for _, mode := range modes {
-		j.Explore(fmt.Sprintf("PRR/%s/rx0", mode.Name), prAfterPeerResetScenario(withBase(mode.A, 228, 0xFFFFFFFA, 4000), withBase(mode.B, 228, 50, 4000), 0), Budget{}, nil)
+		j.Explore(fmt.Sprintf("PRR/%s/rx0", mode.Name), prAfterPeerResetScenario(withBase(mode.A, 228, 0xFFFFFFFA, 4000), withBase(mode.B, 228, 50, 4000), 0, 0), Budget{}, nil)
 	}
 	for _, mode := range modes {
 		j.Explore(fmt.Sprintf("FR/%s", mode.Name), fwdAcrossResetScenario(withBase(mode.A, 228, 0xFFFFFFF9, 4000), withBase(mode.B, 228, 50, 4000)), Budget{}, nil)
@@ -621,7 +626,11 @@ func famM1(modes []modeSpec, thorough bool) []xferCase {
 // prAfterPeerResetScenario: the peer has reset its direction of a stream (the local side read
 // end-of-stream) while the local direction stays open and keeps its retransmission limit: a
 // message written then and lost is sent no more often than the limit allows.
-func prAfterPeerResetScenario(a, b epCfg, limit uint32) *Scenario {
+// reopen: 0 = not at all; 1 = while the message is outstanding the application opens the
+// identifier again (the table entry went with the peer's reset) and gives the new incarnation
+// the reliable policy; 2 = the message was written reliable and the new incarnation gets
+// "no retransmission".  The message keeps the policy it was written under.
+func prAfterPeerResetScenario(a, b epCfg, limit uint32, reopen int) *Scenario {
 	return &Scenario{
 		Name:    "pr-after-peer-reset",
 		Horizon: 120 * time.Second,
@@ -636,6 +645,9 @@ func prAfterPeerResetScenario(a, b epCfg, limit uint32) *Scenario {
 			sb, _ := m.As[1].OpenStream(1, PayloadTypeWebRTCBinary)
 			m.streamsSeen = append(m.streamsSeen, sa, sb)
 			sa.SetReliabilityParams(false, ReliabilityTypeRexmit, limit)
+			if reopen == 2 {
+				sa.SetReliabilityParams(false, ReliabilityTypeReliable, 0)
+			}
 			var got []string
 			rdB := m.Go("readB", func() {
 				buf := make([]byte, 2000)
@@ -687,6 +699,17 @@ func prAfterPeerResetScenario(a, b epCfg, limit uint32) *Scenario {
 			if _, err := sa.WriteSCTP(msg, PayloadTypeWebRTCBinary); err != nil {
 				m.Failf("pr.base", "write on the still open direction: %v", err)
 			}
+			if reopen != 0 {
+				m.Sleep(300 * time.Millisecond)
+				if s2, err := m.As[0].OpenStream(1, PayloadTypeWebRTCBinary); err == nil && s2 != sa {
+					m.streamsSeen = append(m.streamsSeen, s2)
+					if reopen == 1 {
+						s2.SetReliabilityParams(false, ReliabilityTypeReliable, 0)
+					} else {
+						s2.SetReliabilityParams(false, ReliabilityTypeRexmit, 0)
+					}
+				}
+			}
 			m.Sleep(20 * time.Second)
 			lossy = false
 			n, fwd := 0, 0
@@ -703,8 +726,35 @@ func prAfterPeerResetScenario(a, b epCfg, limit uint32) *Scenario {
 					}
 				}
 			}
+			if reopen == 2 {
+				okMsg := m.WaitUntil("reliable-delivered", 60*time.Second, func() bool {
+					m.mu.Lock()
+					defer m.mu.Unlock()
+					for _, g := range got {
+						if g == string(msg) {
+							return true
+						}
+					}
+					return false
+				})
+				if !okMsg || fwd > 0 {
+					m.Failf("policy.reliable-abandoned", "a message written under the reliable policy was still outstanding when the identifier was opened again with 'no retransmission': delivered=%v, %d forward-TSN chunks sent, on the wire %d times", okMsg, fwd, n)
+				}
+				m.Observe("sent=%d fwd=%d ok=%v", n, fwd, okMsg)
+				m.CloseBoth()
+				m.Join(rdA, rdB)
+				return
+			}
 			if n > int(limit)+1 {
 				m.Failf("policy.rexmit", "after the peer reset its direction of the stream a message with retransmission limit %d was put on the wire %d times in 20 s of total loss (%d forward-TSN chunks)", limit, n, fwd)
+			}
+			if reopen != 0 {
+				// two incarnations of the identifier now exist on this side; what the first one
+				// may still send is outside the property (the new one owns the identifier)
+				m.Observe("sent=%d fwd=%d", n, fwd)
+				m.CloseBoth()
+				m.Join(rdA, rdB)
+				return
 			}
 			// the skip reaches the peer's stream (which it still reads): a reliable message
 			// written on the half-closed stream afterwards is delivered
